@@ -1,11 +1,160 @@
-/- Hand-written executable model (tie B): Cond.  Core Lean only — no Mathlib import in this file. -/
+/- Hand-written executable model (tie B): Cond — the kriging cache of CondSRF (field/cond_srf.py) and the
+   refresh protocol of Krige.set_condition (krige/base.py).  Values are abstract identifiers (`Nat`);
+   what matters is *under which settings* a stored kriging result was computed.  Core Lean only. -/
 import GSV.Proto
-open Lean GSV GSV.Proto GSV.Transc
+open Lean GSV GSV.Proto
 namespace GSV.Model.Cond
 
-/-- line-protocol operations of this model; `none` = not one of mine -/
+/-- what a raw kriging field / variance depends on -/
+structure KrigeTok where
+  matCond : Nat      -- conditions the kriging matrix was built from
+  matModel : Nat     -- model the kriging matrix was built from
+  rhsModel : Nat     -- model used for the right-hand sides / sill (the *current* model at call time)
+  mean : Nat         -- mean / trend / normaliser used for the conditions at call time
+  pos : Nat          -- target positions (incl. mesh type)
+deriving DecidableEq, Repr, Inhabited
+
+structure State where
+  pos : Option Nat          -- current positions of the field object
+  cond : Nat                -- current conditioning data
+  model : Nat               -- current model value
+  mean : Nat                -- current mean / trend / normaliser value
+  matCond : Nat             -- conditions used by the stored kriging matrix
+  matModel : Nat            -- model used by the stored kriging matrix
+  cache : Option KrigeTok   -- stored `raw_krige` + `krige_var` (both present or both absent)
+deriving DecidableEq, Repr, Inhabited
+
+inductive Op where
+  | call (pos : Option Nat)          -- `crf(pos)`; `none` = reuse stored positions
+  | setPos (pos : Nat)
+  | setCondition (cond : Option Nat) -- `krige.set_condition(...)`: new data or plain refresh
+  | modelChange (m : Nat)            -- in-place change / re-assignment of the model
+  | setMean (v : Nat)                -- mean / trend / normaliser re-assignment
+  | deleteFields
+deriving DecidableEq, Repr, Inhabited
+
+def init (cond model mean : Nat) : State :=
+  { pos := none, cond, model, mean, matCond := cond, matModel := model, cache := none }
+
+/-- the kriging result a freshly built object (current conditions, model, mean) returns at `p` -/
+def freshTok (s : State) (p : Nat) : KrigeTok :=
+  { matCond := s.cond, matModel := s.model, rhsModel := s.model, mean := s.mean, pos := p }
+
+/-- what `self.krige(pos)` computes now -/
+def computeTok (s : State) (p : Nat) : KrigeTok :=
+  { matCond := s.matCond, matModel := s.matModel, rhsModel := s.model, mean := s.mean, pos := p }
+
+/-- the object is in sync with its settings: the kriging matrix was built from the current conditions and
+    model, and a stored kriging result (if any) is the one a fresh object would compute -/
+def synced (s : State) : Bool :=
+  decide (s.matCond = s.cond) && decide (s.matModel = s.model) &&
+  (match s.cache with | none => true | some t => decide (t = freshTok s t.pos))
+
+/-- `set_pos`: a position tuple different from the stored one deletes all stored fields -/
+def setPos (s : State) (p : Nat) : State :=
+  if s.pos = some p then s else { s with pos := some p, cache := none }
+
+/-- positions a call works on: the given ones, else the stored ones -/
+def targetPos (s : State) (p? : Option Nat) : Option Nat :=
+  match p? with
+  | some p => some p
+  | none => s.pos
+
+/-- a call at positions `p`: (new state, (kriging token used, was it reused)) -/
+def callAt (s : State) (p : Nat) : State × Option (KrigeTok × Bool) :=
+  let s := setPos s p
+  match s.cache with
+  | some t => (s, some (t, true))
+  | none =>
+    let t := computeTok s p
+    ({ s with cache := some t }, some (t, false))
+
+/-- output of a call: `none` = raises (no positions), else (token used, was it reused) -/
+def step (s : State) : Op → State × Option (KrigeTok × Bool)
+  | .call p? =>
+    match targetPos s p? with
+    | none => (s, none)
+    | some p => callAt s p
+  | .setPos p => (setPos s p, none)
+  | .setCondition c? =>
+    let c := c?.getD s.cond
+    ({ s with cond := c, matCond := c, matModel := s.model, cache := none }, none)
+  | .modelChange m => ({ s with model := m }, none)
+  | .setMean v => ({ s with mean := v }, none)
+  | .deleteFields => ({ s with cache := none }, none)
+
+def run (s : State) : List Op → State × List (Option (KrigeTok × Bool))
+  | [] => (s, [])
+  | op :: ops =>
+    let (s', o) := step s op
+    let (s'', os) := run s' ops
+    (s'', o :: os)
+
+/-! ### the conditioning formula (`get_scaling` and the final sum) -/
+section formula
+open GSV.Transc
+variable {α : Type} [Arith α] [Transc α] [DecidableLT α] [DecidableLE α]
+
+def maxz (x : α) : α := if x < ((0:Nat):α) then ((0:Nat):α) else x   -- np.maximum(x, 0)
+
+/-- `(var_scale, nug_scale)` of `CondSRF.get_scaling` -/
+def scaling (kvar var nugget : α) : α × α :=
+  if nugget > ((0:Nat):α) then
+    let vs := maxz (kvar - nugget)
+    (sqrt (vs / var), sqrt ((kvar - vs) / nugget))
+  else (sqrt (kvar / var), ((0:Nat):α))
+
+/-- conditioned value = kriging estimate + scaled unconditional field + scaled nugget noise -/
+def condValue (krige kvar raw var nugget noise : α) : α :=
+  krige + (scaling kvar var nugget).1 * raw + (scaling kvar var nugget).2 * noise
+
+end formula
+
+/-! ### driver -/
+
+def parseOp (j : Json) : Except String Op := do
+  let k ← getStr j "k"
+  match k with
+  | "call" => match j.getObjVal? "pos" with
+    | .ok (Json.num n) => return .call (some n.mantissa.toNat)
+    | _ => return .call none
+  | "set_pos" => return .setPos (← getNat j "pos")
+  | "set_condition" => match j.getObjVal? "cond" with
+    | .ok (Json.num n) => return .setCondition (some n.mantissa.toNat)
+    | _ => return .setCondition none
+  | "model" => return .modelChange (← getNat j "v")
+  | "mean" => return .setMean (← getNat j "v")
+  | "delete" => return .deleteFields
+  | _ => throw s!"unknown cond op {k}"
+
+def tokJson (t : KrigeTok) : Json :=
+  Json.arr ((#[t.matCond, t.matModel, t.rhsModel, t.mean, t.pos] : Array Nat).map fun n => Json.num (JsonNumber.fromNat n))
+
 def ops (op : String) (j : Json) : Option (Except String Json) :=
   match op with
+  | "cond_history" => some (do
+      let c ← getNat j "cond"; let m ← getNat j "model"; let mu ← getNat j "mean"
+      let arr ← (← j.getObjVal? "ops").getArr?
+      let opl ← arr.toList.mapM parseOp
+      -- replay step by step so that the fresh token of the state *at each call* is reported
+      let mut s := init c m mu
+      let mut out : Array Json := #[]
+      for o in opl do
+        let (s', r) := step s o
+        match o, r with
+        | .call _, some (t, reused) =>
+          let p := s'.pos.getD 0
+          out := out.push (Json.mkObj [("tok", tokJson t), ("fresh", tokJson (freshTok s' p)),
+            ("reused", Json.bool reused), ("eq_fresh", Json.bool (decide (t = freshTok s' p))), ("synced_before", Json.bool (synced s))])
+        | .call _, none => out := out.push (Json.str "ValueError")
+        | _, _ => pure ()
+        s := s'
+      return Json.arr out)
+  | "cond_value" => some (do
+      let kr ← getFloats j "krige"; let kv ← getFloats j "kvar"; let raw ← getFloats j "raw"; let nz ← getFloats j "noise"
+      let var ← getFloat j "var"; let nug ← getFloat j "nugget"
+      let out := (List.range kr.size).map fun i => condValue kr[i]! kv[i]! raw[i]! var nug nz[i]!
+      return fl out)
   | _ => none
 
 end GSV.Model.Cond
